@@ -323,10 +323,14 @@ func (c ColLowCardinality[T]) Rows() int {
 func (c *ColLowCardinality[T]) Prepare() error {
 	// Allocate keys slice.
 	c.keys = append(c.keys[:0], make([]int, len(c.Values))...)
+	// The dictionary describes exactly the current values: keys are
+	// numbered from zero below, so entries (and key numbers) left from a
+	// previous Prepare of this column must not survive.
 	if c.kv == nil {
 		c.kv = map[T]int{}
-		c.index.Reset()
 	}
+	clear(c.kv)
+	c.index.Reset()
 
 	// Fill keys with value indexes.
 	var last int
